@@ -134,7 +134,7 @@ def d14_witnesses():
 
 
 def gen_cases(rng, tier):
-    cases = [("d14_%d" % i, build(p)) for i, p in enumerate(d14_witnesses())]
+    cases = []                                  # the D14 witnesses live in corpus/C13/ and run first
     n = 3600 if tier == "quick" else 60000
     for i in range(n):
         cases.append(("r%d" % i, build(scenario(rng))))
